@@ -23,6 +23,9 @@ pub enum Kind {
     SetPosSame,
     TickB,
     IncB,
+    /// MultiProgress only: two bars are inserted at the top and dropped again, lower one first (the
+    /// draws this forces are not ordinary requests and are not counted), then an ordinary tick of bar a
+    ChurnTick,
 }
 
 #[derive(Clone, Copy, Debug, PartialEq)]
@@ -107,6 +110,8 @@ struct Run {
     inc_reach: Vec<u64>,
     /// (time, kind, frames before, frames after, expected rows after the call)
     calls: Vec<(u64, Kind, usize, usize, Vec<String>)>,
+    /// index ranges of frames painted by forced draws (structural changes)
+    forced: Vec<(usize, usize)>,
 }
 
 impl C05 {
@@ -142,6 +147,7 @@ impl C05 {
         let nframes = |spy: &Spy| spy.st().frames.as_ref().map_or(0, |f| f.len());
         let mut drawn_b = false;
         let mut drawn_a = false;
+        let mut forced: Vec<(usize, usize)> = Vec::new();
         let root = Ev { gap_ns: 0, kind: Kind::Burst };
         for ev in std::iter::once(&root).chain(hist.iter()) {
             clock::advance_ns(ev.gap_ns);
@@ -151,11 +157,25 @@ impl C05 {
                 _ => 1,
             };
             for _ in 0..reps {
+                if ev.kind == Kind::ChurnTick {
+                    let f0 = nframes(&spy);
+                    let mp = mp.as_ref().unwrap();
+                    let r = catch(|| {
+                        let x = mp.insert(0, ProgressBar::with_draw_target(Some(3), ProgressDrawTarget::hidden()).with_style(style(None)).with_prefix("x"));
+                        let y = mp.insert(1, ProgressBar::with_draw_target(Some(3), ProgressDrawTarget::hidden()).with_style(style(None)).with_prefix("y"));
+                        drop(y);
+                        drop(x);
+                    });
+                    if let Err(p) = r {
+                        return Err(p);
+                    }
+                    forced.push((f0, nframes(&spy)));
+                }
                 let before = nframes(&spy);
                 let t = clock::now_ns();
                 let reach0 = reach.times.lock().unwrap().len();
                 let r = catch(|| match ev.kind {
-                    Kind::Tick | Kind::Burst => a.tick(),
+                    Kind::Tick | Kind::Burst | Kind::ChurnTick => a.tick(),
                     Kind::Inc | Kind::IncBurst => a.inc(1),
                     Kind::Msg => a.set_message(format!("m{}", msg + 1)),
                     Kind::SetPos => a.set_position(pa + 1),
@@ -193,13 +213,15 @@ impl C05 {
         let frames = spy.st().frames.take().unwrap_or_default();
         let reach_a = reach.times.lock().unwrap().clone();
         let _ = catch(move || drop((a, b, mp)));
-        Ok(Run { frames, reach_a, inc_reach, calls })
+        Ok(Run { frames, reach_a, inc_reach, calls, forced })
     }
 
     fn judge(&self, run: &Run) -> Result<(), (String, String)> {
         let r = self.r as i128;
         let i_ns = interval_ns(self.r);
-        let ftimes: Vec<u64> = run.frames.iter().map(|f| f.0).collect();
+        // frames painted by ordinary requests (forced draws of structural changes are outside the law)
+        let is_forced = |k: usize| run.forced.iter().any(|&(a, b)| a <= k && k < b);
+        let ftimes: Vec<u64> = run.frames.iter().enumerate().filter(|(k, _)| !is_forced(*k)).map(|(_, f)| f.0).collect();
         // (a) frame window law: burst 20, rate R per second
         if let Some((i, j)) = window_law(&ftimes, 20, r, 1_000_000_000) {
             let dt = ftimes[j] - ftimes[i];
@@ -218,6 +240,12 @@ impl C05 {
         let mut last_frame_t: Option<u64> = None;
         for (t, kind, before, after, rows) in &run.calls {
             let painted = after > before;
+            // a forced frame painted just before this call is a painted frame too
+            if let Some(&(a, b)) = run.forced.iter().find(|&&(_, b)| b == *before) {
+                if b > a {
+                    last_frame_t = Some(run.frames[b - 1].0);
+                }
+            }
             if let Some(lf) = last_frame_t {
                 let need = match kind {
                     Kind::Inc | Kind::IncBurst | Kind::IncB | Kind::SetPos | Kind::SetPosSame => i_ns + 1_000_000,
@@ -325,7 +353,7 @@ fn configs(tier: Tier) -> Vec<(C05, usize)> {
             }
             for &r in &[20u8, 255] {
                 v.push((C05 { r, target: Target::Single, kinds: vec![Kind::Inc, Kind::IncBurst], gaps: pos_gaps(r), name: "position-bucket" }, 3));
-                v.push((C05 { r, target: Target::Multi, kinds: vec![Kind::Tick, Kind::Burst, Kind::TickB, Kind::IncB], gaps: vec![0, 1, interval_ns(r) - 1, interval_ns(r), 20 * interval_ns(r), 21 * interval_ns(r) + 1], name: "multi" }, 3));
+                v.push((C05 { r, target: Target::Multi, kinds: vec![Kind::Tick, Kind::Burst, Kind::TickB, Kind::IncB, Kind::ChurnTick], gaps: vec![0, 1, interval_ns(r) - 1, interval_ns(r), 20 * interval_ns(r), 21 * interval_ns(r) + 1], name: "multi" }, 3));
                 v.push((C05 { r, target: Target::Single, kinds: vec![Kind::Tick, Kind::Inc, Kind::Burst, Kind::Msg, Kind::SetPos, Kind::SetPosSame], gaps: vec![0, 1_000_000, interval_ns(r) - 1, interval_ns(r) + 1_000_000, 21 * interval_ns(r) + 1], name: "mixed" }, 3));
             }
         }
@@ -336,7 +364,7 @@ fn configs(tier: Tier) -> Vec<(C05, usize)> {
             }
             for &r in few {
                 v.push((C05 { r, target: Target::Single, kinds: vec![Kind::Inc, Kind::IncBurst], gaps: pos_gaps(r), name: "position-bucket" }, 4));
-                v.push((C05 { r, target: Target::Multi, kinds: vec![Kind::Tick, Kind::Burst, Kind::TickB, Kind::IncB], gaps: vec![0, 1, interval_ns(r) - 1, interval_ns(r), 20 * interval_ns(r), 21 * interval_ns(r) + 1], name: "multi" }, 4));
+                v.push((C05 { r, target: Target::Multi, kinds: vec![Kind::Tick, Kind::Burst, Kind::TickB, Kind::IncB, Kind::ChurnTick], gaps: vec![0, 1, interval_ns(r) - 1, interval_ns(r), 20 * interval_ns(r), 21 * interval_ns(r) + 1], name: "multi" }, 4));
                 v.push((C05 { r, target: Target::Single, kinds: vec![Kind::Tick, Kind::Inc, Kind::Burst, Kind::Msg, Kind::SetPos, Kind::SetPosSame], gaps: vec![0, 1_000_000, interval_ns(r) - 1, interval_ns(r) + 1_000_000, 21 * interval_ns(r) + 1], name: "mixed" }, 4));
             }
         }
@@ -364,8 +392,8 @@ pub fn meta(tier: Tier) -> Meta {
     let (d1, d2) = if tier == Tier::Quick { (2, 3) } else { (3, 4) };
     Meta {
         level: "model_checking",
-        rule: format!("virtual-time histories: every sequence of (gap, request) events to depth {d1} for every refresh rate 1..=255 and depth {d2} for R in {{1,3,7,20,60,255}}, gaps clustered at 0, 1 ns, 1 ms, I-1 ns, I, I+1 ns, 2I, 5I, 10I, 20I, 21I+1 ns, 1 h (I = ceil(1e9/R) ns), requests tick / burst of 25 ticks, after draining the bucket at t=0; position-bucket, mixed and MultiProgress (two members) configurations; long runs (one request every I/3 for 1 s and 100 s{}) for every R. Oracle in exact integer arithmetic: window law over all frame pairs, staleness, inc token bucket (observed through a ProgressTracker), frame content == latest state; a state is (R, frame times, requests reaching the bar); non-trivial = more than 20 frames", if tier == Tier::Quick { "" } else { ", 1 h" }),
-        assumptions: vec!["virtual clock by clock_gettime interposition; one draw target per history, clock reset to the base instant".into(), "frames = completed draws (flushes) caused by ordinary requests; no forced draws in the alphabet".into()],
+        rule: format!("virtual-time histories: every sequence of (gap, request) events to depth {d1} for every refresh rate 1..=255 and depth {d2} for R in {{1,3,7,20,60,255}}, gaps clustered at 0, 1 ns, 1 ms, I-1 ns, I, I+1 ns, 2I, 5I, 10I, 20I, 21I+1 ns, 1 h (I = ceil(1e9/R) ns), requests tick / burst of 25 ticks, after draining the bucket at t=0; position-bucket, mixed and MultiProgress (two members; incl. bars inserted and dropped between requests, whose forced draws are not counted) configurations; long runs (one request every I/3 for 1 s and 100 s{}) for every R. Oracle in exact integer arithmetic: window law over all frame pairs, staleness, inc token bucket (observed through a ProgressTracker), frame content == latest state; a state is (R, frame times, requests reaching the bar); non-trivial = more than 20 frames", if tier == Tier::Quick { "" } else { ", 1 h" }),
+        assumptions: vec!["virtual clock by clock_gettime interposition; one draw target per history, clock reset to the base instant".into(), "frames = completed draws (flushes) caused by ordinary requests; forced draws (bars added/dropped in the MultiProgress configuration) are identified and left out of the count".into()],
         bounds: json!({"rates": "1..=255", "depth_all_rates": d1, "depth_selected_rates": d2}),
         exhaustive: true,
     }
